@@ -206,6 +206,10 @@ def check_cube(ck, n):
     ck.count("cube:n=" + str(n))
     problems = []
     face = lambda s: s // (n * n)  # noqa: E731
+    missing = [f"{axis}{s}" for axis in "frd" for s in range(n) if f"{axis}{s}" not in moves]
+    if missing or len(moves) != 3 * n:
+        ck.violation("C16/cube/layer-turns", f"cube {n}: the layer turns are not exactly f0..f{n-1}, r0..r{n-1}, d0..d{n-1} (missing {missing[:6]}, {len(moves)} produced)", {"case": case, "produced": sorted(moves)})
+        return
     for axis in "frd":
         sl = [moves[f"{axis}{s}"] for s in range(n)]
         sup = [support(p) for p in sl]
@@ -445,7 +449,7 @@ def main():
     for n in list(range(2, 6 if not ck.thorough else 9)) + ([11] if not ck.thorough else [10, 11, 12]):
         if ck.enough():
             break
-        check_cube(ck, n)  # 10..12: layer numbers with two digits
+        ck.guard(check_cube, ck, n)  # 10..12: layer numbers with two digits
     for n in range(2, 11 if not ck.thorough else 13):
         for params in get_group(n):
             check_rings(ck, params, True)
